@@ -97,6 +97,8 @@ pub struct Runner<'a> {
     pub contended: u64,
     /// the process dies once the trace has this many lines (checked at every environment interaction)
     pub crash_at: Option<usize>,
+    /// one handle instance used for several requests in a row (leaked on purpose: futures borrow it for 'static)
+    pub shared: Option<*mut ControlHandle>,
 }
 
 #[derive(Debug, PartialEq)]
@@ -214,6 +216,28 @@ impl<'a> Runner<'a> {
                     if let Some(&g) = h.timers.get(i) { h.release(g); }
                 }
                 Some(Step::Ctl(id, od)) => { self.submit_ctl(id, od); }
+                Some(Step::CtlPair(id1, od1, id2, od2)) => {
+                    if let Some(h) = &self.handle {
+                        let raw = *self.shared.get_or_insert_with(|| Box::into_raw(Box::new(h.clone())));
+                        let src = |od: bool| CheckOptions { source: if od { InstallSource::OnDemand } else { InstallSource::ScheduledTask } };
+                        {
+                            // SAFETY: the pointer comes from a leaked Box and the first future is dropped before the second is made
+                            let h1: &'static mut ControlHandle = unsafe { &mut *raw };
+                            let o1 = src(od1);
+                            let mut fut1: Pin<Box<dyn Future<Output = _>>> = Box::pin(async move { h1.start_update_check(o1).await });
+                            let waker = Waker::from(self.flag.clone());
+                            let mut cx = Context::from_waker(&waker);
+                            let _ = fut1.as_mut().poll(&mut cx);
+                            drop(fut1);                              // the caller gives up
+                        }
+                        self.replies.push((id1, "abandoned".to_string()));
+                        let h2: &'static mut ControlHandle = unsafe { &mut *raw };
+                        let o2 = src(od2);
+                        self.ctls.push(Ctl { id: id2, fut: Box::pin(async move { h2.start_update_check(o2).await }), done: false });
+                        self.poll_ctls();
+                        self.hub.lock().unwrap().during_done = true;
+                    }
+                }
             }
         }
     }
